@@ -104,9 +104,9 @@ def shards(tier, seed):
                         "regs": {"fraction": 330, "float": 230, "decimal": 70}})
         else:
             out.append({"kind": "helpers", "system": s, "name": f"helpers-{s}-F",
-                        "regs": {"fraction": 60000}})
+                        "regs": {"fraction": 40000}})
             out.append({"kind": "helpers", "system": s, "name": f"helpers-{s}-f",
-                        "regs": {"float": 45000, "decimal": 12000}})
+                        "regs": {"float": 30000, "decimal": 8000}})
     for i, nit in enumerate(("fraction", "float", "decimal") if q else
                             ("fraction", "fraction", "float", "decimal")):
         out.append({"kind": "compact", "nit": nit, "name": f"compact-{nit}-{i}",
@@ -114,11 +114,11 @@ def shards(tier, seed):
     for i, nit in enumerate(("fraction", "float") if q else ("fraction", "fraction", "float")):
         slow = 2 if nit == "fraction" else 1         # mip on Fraction coefficients is ~5x slower
         out.append({"kind": "auto", "nit": nit, "name": f"auto-{nit}-{i}",
-                    "n": 900 if q else 45000, "npref": (60 if q else 3000) // slow})
+                    "n": 900 if q else 45000, "npref": (60 if q else 1200) // slow})
     for i, nit in enumerate(("fraction", "float") if q else ("fraction", "fraction", "float")):
         slow = 3 if nit == "fraction" else 1
         out.append({"kind": "preferred", "nit": nit, "name": f"preferred-{nit}-{i}",
-                    "n": (180 if q else 6000) // slow})
+                    "n": (180 if q else 2400) // slow})
     return out
 
 
@@ -188,6 +188,19 @@ def floor_log10(v: F) -> int:
     while F(10) ** (d + 1) <= v:
         d += 1
     return d
+
+
+def is_range_error(ex):
+    """exceptions by which float overflow / underflow surfaces in pint: OverflowError from
+    scale**exp, ZeroDivisionError after a factor flushed to 0, Fraction('inf') / Fraction('nan')
+    when a float factor is turned back into a Fraction, log10(0) in to_compact."""
+    name = type(ex).__name__
+    if name in ("OverflowError", "ZeroDivisionError", "Overflow", "Underflow"):
+        return True
+    if name == "ValueError":
+        a = repr(ex.args)
+        return "'inf'" in a or "'nan'" in a or "'-inf'" in a or "math domain error" in a
+    return False
 
 
 def mag_desc(x):
@@ -430,7 +443,12 @@ def same_mag(a, b):
     if type(a) is not type(b):
         return False
     if hasattr(a, "nominal_value"):
-        return same_mag(a.nominal_value, b.nominal_value) and same_mag(a.std_dev, b.std_dev)
+        if not same_mag(a.nominal_value, b.nominal_value):
+            return False
+        try:
+            return same_mag(a.std_dev, b.std_dev)
+        except OverflowError:          # std_dev squares its terms
+            return True
     if isnan(a) and isnan(b):
         return True
     return a == b
@@ -572,17 +590,15 @@ class Monitor:
             s += abs(log10abs(tofrac(xn)))
         return s > 290
 
-    def call(self, helper, fn, x, units, extra=None, **kw):
+    def call(self, helper, fn, x, units, extra=None, dst_stress=0.0, **kw):
         """run a helper; classify exceptions.  -> (ok, result)"""
         rec = self.rec
         try:
             return True, fn()
         except Exception as ex:  # noqa: BLE001
             name = type(ex).__name__
-            rangeish = name in ("OverflowError", "ZeroDivisionError", "Overflow", "Underflow") or \
-                (name == "ValueError" and "inf" in repr(ex.args)) or \
-                (name == "InvalidOperation" and self.reg == "decimal")
-            if rangeish and self.floaty(x, units) and self.stressed(helper, x, units):
+            rangeish = is_range_error(ex) or (name == "InvalidOperation" and self.reg == "decimal")
+            if rangeish and self.floaty(x, units) and (dst_stress > 290 or self.stressed(helper, x, units)):
                 rec.count("skipped_float_range")
                 rec.observe("float_range_errors", f"{helper}:{name}")
                 return False, None
@@ -672,11 +688,15 @@ class Monitor:
                           **self.fields(helper, verdict, x, units, **kw))
             return False
         # uncertainty travels with the value
-        if hasattr(rm, "std_dev") and hasattr(x, "std_dev") and xn != 0 and rn != 0:
+        if hasattr(rm, "nominal_value") and hasattr(x, "nominal_value") and xn != 0 and rn != 0:
             if not (1e-140 < abs(rn) < 1e140 and 1e-140 < abs(xn) < 1e140):
                 rec.count("skipped_uncertainty_float_range")     # std_dev squares its terms
                 return True
-            a, b = x.std_dev / abs(xn), rm.std_dev / abs(rn)
+            try:
+                a, b = x.std_dev / abs(xn), rm.std_dev / abs(rn)
+            except OverflowError:
+                rec.count("skipped_uncertainty_float_range")
+                return True
             if abs(a - b) > 1e-9 * max(a, b):
                 rec.violation("uncertainty-changed", self.witness(x, units, result=mag_desc(rm),
                                                                   result_units=units_desc(runits)),
@@ -685,11 +705,11 @@ class Monitor:
             rec.count("uncertainty_checks")
         return True
 
-    def twin(self, helper, ihelper, x, units, r, args=(), **kw):
+    def twin(self, helper, ihelper, x, units, r, args=(), dst_stress=0.0, **kw):
         """ito_X on a fresh equal object must leave it equal to r = to_X()."""
         rec = self.rec
         q2 = self.mk(x, units)
-        ok, _ = self.call(ihelper, lambda: getattr(q2, ihelper)(*args), x, units, **kw)
+        ok, _ = self.call(ihelper, lambda: getattr(q2, ihelper)(*args), x, units, dst_stress=dst_stress, **kw)
         if not ok:
             return
         rec.count("ito_twin_checks")
@@ -1172,7 +1192,7 @@ def run_auto(spec, rec, rng, pintload, pint, o, names):
                 allu.update(ub)
                 floaty = regname != "fraction" or not (is_exact_mag(x) and is_exact_mag(y)) or \
                     any(not o.info(n)[0].exact for n in allu)
-                if name in ("OverflowError", "ZeroDivisionError", "Overflow", "Underflow") and floaty and \
+                if is_range_error(ex) and floaty and \
                         (mon.stressed("auto", x, allu) or mon.stressed("auto", y, allu)):
                     rec.count("skipped_float_range")
                     continue
@@ -1283,7 +1303,7 @@ def run_preferred(spec, rec, rng, pintload, pint, o, names):
     # seconds: kept out of the quick tier
     common = [n for n in common_all if all(v.denominator == 1 for v in o.info(n)[1].values())]
     if spec["tier"] != "quick":
-        common = common + [n for n in common_all if n not in common][::3]
+        common = common + [n for n in common_all if n not in common][::6]
     ug = UnitGen(rng, o, common)
     pure = {}
     for n in common:
@@ -1355,7 +1375,9 @@ def run_preferred(spec, rec, rng, pintload, pint, o, names):
                     k0 = next(iter(dq))
                     if any(dp[k] * dq[k0] != dq[k] * dp[k0] for k in dq):
                         shape = {"shape": "preferred-unit-with-same-dimension-set-but-not-proportional"}
-        ok, r = mon.call("to_preferred", lambda: q.to_preferred(plist), x, units, preferred=pname,
+        # the destination is unknown when the call raises: any of the listed units, to a power
+        dst = 6 * max(o.stress(d) for d in plist_units) if pname == "random" else 0.0
+        ok, r = mon.call("to_preferred", lambda: q.to_preferred(plist), x, units, preferred=pname, dst_stress=dst,
                          extra={"preferred_units": pdesc}, **shape)
         if not ok:
             if pname == "random":
@@ -1369,7 +1391,7 @@ def run_preferred(spec, rec, rng, pintload, pint, o, names):
         if runits != units:
             rec.count("preferred_units_changed")
         mon.value("to_preferred", x, units, r, preferred=pname)
-        mon.twin("to_preferred", "ito_preferred", x, units, r, args=(plist,), preferred=pname)
+        mon.twin("to_preferred", "ito_preferred", x, units, r, args=(plist,), dst_stress=dst, preferred=pname)
         if i % 53 == 0:
             rec.sample({"workload": "preferred", "registry": regname, "list": pdesc, "magnitude": mag_desc(x),
                         "units": units_desc(units), "result_units": units_desc(runits)})
